@@ -301,7 +301,7 @@ def run(ck):
     mods = pick_modules(ck, 10 if quick else 40)
 
     nshards = vlib.NCPU
-    per = 190 if quick else 12500
+    per = 190 if quick else 4000
     maxlen = 60
 
     def shard(i):
